@@ -3,7 +3,7 @@
    Print Assumptions beneath.  Texts and buffers are lists of bytes ([N]); a
    model function returns (return code, bytes written to the destination). *)
 From UV Require Import Lib.Base Model.Inet Spec.InetSpec Proofs.InetProofs4 Proofs.InetProofs6
-  Proofs.InetProofs6rt.
+  Proofs.InetProofs6rt Proofs.InetProofs6shape Proofs.InetProofs4c.
 Local Open Scope N_scope.
 
 (* inet_pton4 accepts exactly the dotted-quad grammar (four decimal octets
@@ -31,6 +31,15 @@ Theorem C18_ntop4_roundtrip :
             uv_inet_pton AF_INET (t ++ [0]) = (0%Z, [a; b; c; d]).
 Proof. exact ntop4_pton4_roundtrip. Qed.
 Print Assumptions C18_ntop4_roundtrip.
+
+(* inet_ntop4 prints the canonical text of the independent printer
+   (Spec/InetSpec.v: decimal without leading zeros, joined by '.') *)
+Theorem C18_ntop4_canonical :
+  forall a b c d size,
+  a < 256 -> b < 256 -> c < 256 -> d < 256 -> 16 <= size ->
+  inet_ntop4 [a; b; c; d] size = (0%Z, spec_print4 [a; b; c; d] ++ [0]).
+Proof. exact ntop4_canonical. Qed.
+Print Assumptions C18_ntop4_canonical.
 
 (* inet_ntop4, every source and every size: nothing is written at an index
    >= size, UV_ENOSPC iff text + NUL exceeds size, and then nothing is written *)
@@ -98,6 +107,14 @@ Theorem C18_ntop6_exact :
   (nlen text + 1 <= size -> inet_ntop6 a size = (0%Z, text ++ [0])).
 Proof. exact ntop6_spec. Qed.
 Print Assumptions C18_ntop6_exact.
+
+(* inet_pton6 / uv_inet_pton(AF_INET6), every input: either UV_EINVAL and the
+   destination untouched, or 0 and exactly sixteen bytes (the tp/endp/colonp
+   arithmetic and the hand-written shift never leave the 16-byte array) *)
+Theorem C18_pton6_result_shape :
+  forall src, shape6 (inet_pton6 src) /\ shape6 (uv_inet_pton AF_INET6 src).
+Proof. intros src. split; [exact (pton6_shape src) | exact (uv_inet_pton6_shape src)]. Qed.
+Print Assumptions C18_pton6_result_shape.
 
 (* ---- %zone ---------------------------------------------------------------- *)
 
